@@ -18,6 +18,7 @@ import (
 	"github.com/ErdemOzgen/blackdagger/internal/dag"
 	dagsched "github.com/ErdemOzgen/blackdagger/internal/dag/scheduler"
 	dsclient "github.com/ErdemOzgen/blackdagger/internal/persistence/client"
+	"github.com/ErdemOzgen/blackdagger/internal/persistence/jsondb"
 	"github.com/ErdemOzgen/blackdagger/internal/scheduler"
 	"github.com/ErdemOzgen/blackdagger/verifh/core"
 	"github.com/ErdemOzgen/blackdagger/verifh/gate"
@@ -367,5 +368,111 @@ func c08FaultBody(c *core.Ctx) {
 			}
 			idx++
 		}
+	}
+}
+
+// ---- C10, killed-run pass: retry of the record a killed process leaves behind ------------
+
+func c10KilledBody(c *core.Ctx) {
+	if gate.Sysgate() == "" {
+		c.Inconclusive("sysgate not built")
+		return
+	}
+	self, _ := os.Executable()
+	sh := c08Shape{"3-steps+handlers", 3, true, false, false}
+	h0, err := newBDHome(c, "c10c-")
+	if err != nil {
+		c.Inconclusive(err.Error())
+		return
+	}
+	loc0 := filepath.Join(h0.dags, "crash.yaml")
+	_ = os.WriteFile(loc0, []byte(c08DagText(h0, self, filepath.Join(h0.root, "marker.txt"), sh)), 0644)
+	watch := func(h *bdHome) []string { return []string{h.data, h.logs, "/tmp/@blackdagger-crash-"} }
+	res, err := gate.Run(gate.Opts{Watch: watch(h0), Env: h0.env(), Dir: h0.root, Timeout: 120 * time.Second}, c.Scratch, h0.bin, "start", loc0)
+	os.RemoveAll(h0.root)
+	if err != nil || res.TimedOut || res.ExitCode != 0 {
+		c.Inconclusive("c10 killed: counting run failed")
+		return
+	}
+	N := len(res.Events)
+	stride := c.Pick(3, 1)
+	idx := 0
+	for k := 1 + int(c.Seed)%stride; k <= N; k += stride {
+		if !c.Mine(idx) {
+			idx++
+			continue
+		}
+		label := res.Events[k-1].Label()
+		desc := map[string]any{"kill_before_call": k, "of": N, "syscall": res.Events[k-1]}
+		c.Begin(idx, desc)
+		func() {
+			h, err := newBDHome(c, "c10k-")
+			if err != nil {
+				return
+			}
+			defer os.RemoveAll(h.root)
+			marker := filepath.Join(h.root, "marker.txt")
+			loc := filepath.Join(h.dags, "crash.yaml")
+			_ = os.WriteFile(loc, []byte(c08DagText(h, self, marker, sh)), 0644)
+			kres, err := gate.Run(gate.Opts{Watch: watch(h), Env: h.env(), Dir: h.root, KillAt: k, Timeout: 120 * time.Second}, c.Scratch, h.bin, "start", loc)
+			if err != nil || kres.TimedOut || !kres.Killed {
+				return
+			}
+			c.Eval(1)
+			req := h.lastRequestID(loc)
+			if req == "" {
+				c.Count("killed_before_anything_was_recorded", 1)
+				return
+			}
+			done := map[string]bool{}
+			for _, e := range readMarker(marker) {
+				if e.Kind == "END" {
+					done[e.Step] = true
+				}
+			}
+			os.Remove(marker)
+			code, out, to := h.run(90*time.Second, "retry", "--req="+req, loc)
+			c.Count("obligations", 3)
+			c.Count("killed_runs_retried", 1)
+			if to || code != 0 {
+				c.Violate(idx, "killed-run-retry-fails|"+label, fmt.Sprintf("the retry of a run whose process had been killed exits with status %d (timed out: %v): %s", code, to, clip(out, 300)), desc)
+				return
+			}
+			ran := map[string]bool{}
+			for _, e := range readMarker(marker) {
+				if e.Kind == "END" {
+					ran[e.Step] = true
+				}
+			}
+			rec := jsondb.New(h.data, false).ReadStatusRecent(loc, 5)
+			recorded := map[string]string{}
+			for _, sf := range rec {
+				if sf.Status.RequestID == req {
+					for _, n := range sf.Status.Nodes {
+						recorded[n.Step.Name] = n.Status.String()
+					}
+				}
+			}
+			desc["recorded"] = recorded
+			desc["completed_before_kill"], desc["executed_by_retry"] = len(done), len(ran)
+			for i := 1; i <= sh.Steps; i++ {
+				n := fmt.Sprintf("s%d", i)
+				switch {
+				case recorded[n] == "finished" && ran[n]:
+					c.Violate(idx, "killed-run-retry-reran|"+label, fmt.Sprintf("step %s was recorded finished by the killed run but the retry executed it again", n), desc)
+				case recorded[n] != "finished" && !ran[n]:
+					c.Violate(idx, "killed-run-retry-skipped|"+label, fmt.Sprintf("step %s was recorded %q by the killed run but the retry did not execute it", n, recorded[n]), desc)
+				}
+			}
+			if len(jsondb.New(h.data, false).ReadStatusRecent(loc, 5)) < 2 {
+				c.Violate(idx, "killed-run-retry-not-recorded|"+label, "the retry of the killed run is not recorded as a new run", desc)
+			}
+			c.Sig("killed", k)
+			if k%7 == 0 {
+				c.Sample(desc)
+			}
+		}()
+		c.End(idx)
+		idx++
 	}
 }
